@@ -183,13 +183,54 @@ Definition post (s0 : slurper) (r0 : reader) (o : outcome) (s' : slurper) (r' : 
   | ROutOfFuel => True
   end.
 
-Lemma segments_commit rem br mx ns b ex c sg cp ln :
-  c = cur (mkS rem br mx ns b ex) ->
-  segments (set_cur (mkS rem br mx ns b ex) (mkBuf cp ln (sg :: bsegs c))) =
-  segments (mkS rem br mx ns b ex) ++ [sg].
+Definition bump (s : slurper) (n : N) : slurper :=
+  mkS (remained s) (bytesRead s + n) (maxSize s) (nslots s) (b0 s) (ext s).
+
+Lemma set_cur_fields s bb :
+  remained (set_cur s bb) = remained s /\ bytesRead (set_cur s bb) = bytesRead s /\
+  maxSize (set_cur s bb) = maxSize s /\ nslots (set_cur s bb) = nslots s /\
+  length (ext (set_cur s bb)) = length (ext s) /\ cur (set_cur s bb) = bb.
+Proof. unfold set_cur, cur. destruct (ext s); cbn; repeat split; reflexivity. Qed.
+
+Lemma size_set_cur s bb : size (set_cur s bb) + blen (cur s) = size s + blen bb.
 Proof.
-  intros ->. unfold segments, set_cur, cur. cbn [ext b0].
-  destruct ex as [|c t]; cbn [bsegs rev b0 ext flat_map].
+  unfold size, set_cur, cur. destruct (ext s); cbn [b0 ext sum_len fold_right]; lia.
+Qed.
+
+Lemma allocated_set_cur s bb : allocated (set_cur s bb) + bcap (cur s) = allocated s + bcap bb.
+Proof.
+  unfold allocated, set_cur, cur. destruct (ext s); cbn [b0 ext sum_cap fold_right]; lia.
+Qed.
+
+Lemma ginv_set_cur s bb : ginv s -> bcap bb = bcap (cur s) -> ginv (set_cur s bb).
+Proof.
+  intros (G1 & G2 & G3 & G4) Hbb. unfold ginv, set_cur, cur in *.
+  destruct (ext s) as [|c t]; cbn [b0 ext remained nslots sum_cap fold_right] in *.
+  - repeat split; auto; lia.
+  - split; [assumption|]. split; [lia|]. split; [assumption|].
+    destruct G4 as [G4|G4]; [left; exact G4|right].
+    inversion G4; subst. constructor; [lia|assumption].
+Qed.
+
+Lemma lens_set_cur s bb :
+  Forall (fun b => blen b <= bcap b) (b0 s :: ext s) -> blen bb <= bcap bb ->
+  Forall (fun b => blen b <= bcap b) (b0 (set_cur s bb) :: ext (set_cur s bb)).
+Proof.
+  intros H Hbb. unfold set_cur. destruct (ext s) as [|c t]; cbn [b0 ext].
+  - constructor; [assumption|constructor].
+  - inversion H as [|? ? H1 H2]; subst. inversion H2 as [|? ? H3 H4]; subst.
+    constructor; [assumption|]. constructor; assumption.
+Qed.
+
+Lemma full_set_cur s bb :
+  tl (ext (set_cur s bb) ++ [b0 (set_cur s bb)]) = tl (ext s ++ [b0 s]).
+Proof. unfold set_cur. destruct (ext s); reflexivity. Qed.
+
+Lemma segments_set_cur s cp ln sg :
+  segments (set_cur s (mkBuf cp ln (sg :: bsegs (cur s)))) = segments s ++ [sg].
+Proof.
+  unfold segments, set_cur, cur.
+  destruct (ext s) as [|c t]; cbn [bsegs rev b0 ext flat_map].
   - rewrite !app_nil_r. reflexivity.
   - rewrite !flat_map_app. cbn [flat_map bsegs rev]. rewrite !app_nil_r, !app_assoc. reflexivity.
 Qed.
@@ -200,12 +241,37 @@ Proof.
   fold (sum_len l) (sum_cap l). lia.
 Qed.
 
+Lemma sum_len_le l : Forall (fun b => blen b <= bcap b) l -> sum_len l <= sum_cap l.
+Proof.
+  induction 1 as [|b l Hb Hl IH]; cbn [sum_len sum_cap fold_right]; [lia|].
+  fold (sum_len l) (sum_cap l). lia.
+Qed.
+
+Lemma size_le_allocated s :
+  Forall (fun b => blen b <= bcap b) (b0 s :: ext s) -> size s <= allocated s.
+Proof.
+  intros H. inversion H; subst. unfold size, allocated.
+  pose proof (sum_len_le _ H3). lia.
+Qed.
+
+(* when every buffer is full the slurper holds exactly what is allocated *)
+Lemma size_full s :
+  Forall (fun b => blen b = bcap b) (tl (ext s ++ [b0 s])) -> blen (cur s) = bcap (cur s) ->
+  size s = allocated s.
+Proof.
+  unfold size, allocated, cur. destruct (ext s) as [|c t]; cbn [app tl sum_len sum_cap fold_right].
+  - intros _ H. lia.
+  - intros H Hc. apply Forall_app in H. destruct H as (Ht & Hb). inversion Hb; subst.
+    fold (sum_len t) (sum_cap t). rewrite (sum_len_full _ Ht). lia.
+Qed.
+
 (* the read part of the loop body, from a state whose current buffer has free space *)
 Lemma read_into_spec s r :
   linv s r -> blen (cur s) < bcap (cur s) ->
   match read_into s r with
   | Cont s' r' => linv s' r' /\ maxSize s' = maxSize s /\ rtotal r' = rtotal r /\
                   nslots s' = nslots s /\ length (ext s') = length (ext s) /\
+                  rpos r <= rpos r' /\
                   (forall x, In x (rscript r') -> In x (rscript r)) /\
                   ((length (rscript r') < length (rscript r))%nat \/
                    rscript r = [] /\ rscript r' = [] /\
@@ -217,99 +283,217 @@ Proof.
   unfold read_into.
   destruct (rread r (bcap (cur s) - blen (cur s))) as [[n e] r'] eqn:Hr.
   destruct (rread_spec _ _ _ _ _ Hr Hle) as (HnL & Hp' & Hp'le & Ht' & Heof & Hfail & Hincl & Hsc).
-  destruct s as [rem br mx ns b ex]. cbn [remained bytesRead maxSize nslots b0 ext] in *.
-  set (s := mkS rem br mx ns b ex) in *.
-  assert (Hg' : forall bb, bcap bb = bcap (cur s) ->
-             ginv (set_cur (mkS rem (br + n) mx ns b ex) bb)).
-  { intros bb Hbb. destruct Hg as (G1 & G2 & G3 & G4). unfold ginv, set_cur, cur in *.
-    subst s. cbn [ext b0 remained nslots] in *.
-    destruct ex as [|c t]; cbn [b0 ext remained nslots sum_cap fold_right] in *.
-    - repeat split; auto; lia.
-    - fold (sum_cap t) in *. repeat split; auto; try lia.
-      destruct G4 as [G4|G4]; [left; exact G4|right].
-      inversion G4; subst. constructor; [lia|assumption]. }
-  assert (Hsz : forall bb, blen bb = blen (cur s) + n ->
-             size (set_cur (mkS rem (br + n) mx ns b ex) bb) = size s + n).
-  { intros bb Hbb. unfold size, set_cur, cur in *. subst s. cbn [ext b0] in *.
-    destruct ex as [|c t]; cbn [b0 ext sum_len fold_right] in *; lia. }
-  assert (Hac : forall bb, bcap bb = bcap (cur s) ->
-             allocated (set_cur (mkS rem (br + n) mx ns b ex) bb) = allocated s).
-  { intros bb Hbb. unfold allocated, set_cur, cur in *. subst s. cbn [ext b0] in *.
-    destruct ex as [|c t]; cbn [b0 ext sum_cap fold_right] in *; lia. }
-  cbn [maxSize bytesRead].
-  destruct ((0 <? mx) && (mx <? br + n)) eqn:Hover.
+  fold (bump s n).
+  assert (Hb_cur : cur (bump s n) = cur s) by reflexivity.
+  assert (Hb_size : size (bump s n) = size s) by reflexivity.
+  assert (Hb_alloc : allocated (bump s n) = allocated s) by reflexivity.
+  assert (Hb_seg : segments (bump s n) = segments s) by reflexivity.
+  assert (Hb_g : ginv (bump s n)) by exact Hg.
+  cbn [maxSize bytesRead bump].
+  destruct ((0 <? maxSize s) && (maxSize s <? bytesRead s + n)) eqn:Hover.
   - (* over the per-message limit *)
-    split; [|discriminate]. unfold post. cbn [maxSize].
-    split; [exact Hg|]. split; [reflexivity|]. split; [exact Hal|].
-    left. subst s. cbn [maxSize]. lia.
+    split; [|discriminate]. unfold post. cbn [maxSize bump].
+    split; [exact Hb_g|]. split; [reflexivity|]. split; [exact Hal|].
+    left. lia.
   - set (c' := mkBuf (bcap (cur s)) (blen (cur s) + n) ((rpos r, n) :: bsegs (cur s))).
-    assert (Hlinv' : rpos r' <= rtotal r' -> linv (set_cur (mkS rem (br + n) mx ns b ex) c') r').
-    { intros _. unfold linv.
-      split; [apply Hg'; reflexivity|].
-      rewrite (Hsz c' eq_refl), (Hac c' eq_refl).
-      assert (Hseg : segments (set_cur (mkS rem (br + n) mx ns b ex) c') = segments s ++ [(rpos r, n)]).
-      { subst c'. apply (segments_commit rem (br + n) mx ns b ex (cur s)). reflexivity. }
-      rewrite Hseg.
-      repeat split.
-      - unfold set_cur, cur in *. subst s c'. cbn [ext b0] in *.
-        destruct ex as [|c t]; cbn [b0 ext] in *.
-        + constructor; [cbn [blen bcap]; lia|constructor].
-        + inversion Hlen as [|? ? H1 H2]; subst. inversion H2 as [|? ? H3 H4]; subst.
-          constructor; [assumption|]. constructor; [cbn [blen bcap]; lia|assumption].
-      - unfold set_cur, cur in *. subst s c'. cbn [ext b0] in *.
-        destruct ex as [|c t]; cbn [b0 ext app tl] in *; assumption.
-      - cbn [bytesRead]. unfold set_cur. destruct ex; cbn [bytesRead]; lia.
-      - lia.
-      - lia.
-      - rewrite Hpos. replace (size s + n) with (size s + n) by reflexivity.
-        apply Chain_snoc. exact Hch.
-      - unfold set_cur. destruct ex; cbn [maxSize bytesRead]; lia.
-      - unfold set_cur. destruct ex; cbn [maxSize]; exact Hal. }
+    set (s2 := set_cur (bump s n) c').
+    destruct (set_cur_fields (bump s n) c') as (F1 & F2 & F3 & F4 & F5 & F6).
+    fold s2 in F1, F2, F3, F4, F5, F6. cbn [bump remained bytesRead maxSize nslots ext] in F1, F2, F3, F4, F5.
+    pose proof (size_set_cur (bump s n) c') as Hsz. fold s2 in Hsz.
+    rewrite Hb_cur, Hb_size in Hsz. cbn [blen c'] in Hsz.
+    pose proof (allocated_set_cur (bump s n) c') as Hac. fold s2 in Hac.
+    rewrite Hb_cur, Hb_alloc in Hac. cbn [bcap c'] in Hac.
+    assert (Hseg : segments s2 = segments s ++ [(rpos r, n)]).
+    { unfold s2, c'. rewrite <- Hb_cur at 3. rewrite segments_set_cur. rewrite Hb_seg. reflexivity. }
+    assert (Hlinv' : linv s2 r').
+    { unfold linv.
+      split. { apply ginv_set_cur; [exact Hb_g|reflexivity]. }
+      split. { apply lens_set_cur; [exact Hlen|]. cbn [c' blen bcap]. lia. }
+      split. { unfold s2. rewrite full_set_cur. exact Hfull. }
+      split; [lia|]. split; [lia|]. split; [lia|].
+      split. { rewrite Hseg. replace (size s2) with (rpos r + n) by lia. rewrite Hpos.
+               apply Chain_snoc. exact Hch. }
+      split; [rewrite F2, F3; lia|].
+      rewrite F3. intros H. specialize (Hal H). lia. }
     destruct e.
     + (* RNil: continue *)
-      assert (Hms : forall bb, maxSize (set_cur (mkS rem (br + n) mx ns b ex) bb) = mx)
-        by (intros; unfold set_cur; destruct ex; reflexivity).
-      assert (Hns : forall bb, nslots (set_cur (mkS rem (br + n) mx ns b ex) bb) = ns)
-        by (intros; unfold set_cur; destruct ex; reflexivity).
-      assert (Hex : forall bb, length (ext (set_cur (mkS rem (br + n) mx ns b ex) bb)) = length ex)
-        by (intros; unfold set_cur; destruct ex; reflexivity).
-      split; [apply Hlinv'; lia|]. rewrite Hms, Hns, Hex.
-      repeat split; auto.
+      split; [exact Hlinv'|]. split; [exact F3|]. split; [exact Ht'|]. split; [exact F4|].
+      split; [exact F5|]. split; [lia|]. split; [exact Hincl|].
       destruct Hsc as [Hsc|(E1 & E2 & _ & Hsc)]; [left; exact Hsc|right].
       split; [exact E1|]. split; [exact E2|].
       assert (HL : 0 < bcap (cur s) - blen (cur s)) by lia.
-      destruct (Hsc HL) as (_ & Hn). specialize (Hn eq_refl).
-      assert (Hcur : cur (set_cur (mkS rem (br + n) mx ns b ex) c') = c')
-        by (unfold set_cur, cur; destruct ex; reflexivity).
-      rewrite Hcur. subst c'. cbn [blen bcap].
+      destruct (Hsc HL) as (Hn0 & Hn). specialize (Hn eq_refl).
+      destruct (N.eq_dec n 0) as [Z|Z]; [specialize (Hn0 Z); discriminate|].
+      rewrite F6. cbn [c' blen bcap].
       destruct (N.le_gt_cases (bcap (cur s) - blen (cur s)) (rtotal r - rpos r)); [left|right]; lia.
     + (* REOF: done, everything committed *)
       split; [|discriminate]. specialize (Heof eq_refl).
-      destruct Hlinv' as (G & _ & _ & _ & Hp2 & _ & Hc2 & Hm2 & Ha2); [lia|].
-      unfold post. split; [exact G|].
-      assert (Hms : maxSize (set_cur (mkS rem (br + n) mx ns b ex) c') = mx)
-        by (unfold set_cur; destruct ex; reflexivity).
-      rewrite Hms in *. cbn [maxSize]. split; [reflexivity|]. split; [exact Ha2|].
-      assert (Hbr2 : bytesRead (set_cur (mkS rem (br + n) mx ns b ex) c') = br + n)
-        by (unfold set_cur; destruct ex; reflexivity).
-      rewrite Hbr2 in Hm2.
-      assert (Hsize : size (set_cur (mkS rem (br + n) mx ns b ex) c') = rtotal r) by lia.
-      rewrite <- Hsize at 1 2. split; [reflexivity|]. split; [rewrite Hsize in Hc2 |- *; exact Hc2|].
-      split; [lia|].
-      (* size <= allocated <= M *)
-      pose proof (ginv_allocated _ G) as GA.
-      assert (size (set_cur (mkS rem (br + n) mx ns b ex) c') <=
-              allocated (set_cur (mkS rem (br + n) mx ns b ex) c')).
-      { rewrite (Hsz c' eq_refl), (Hac c' eq_refl).
-        unfold size, allocated, cur in *. subst s. cbn [b0 ext] in *.
-        destruct ex as [|c t]; cbn [sum_len sum_cap fold_right] in *.
-        - lia.
-        - fold (sum_len t) (sum_cap t) in *. cbn [app tl] in Hfull.
-          apply Forall_app in Hfull. destruct Hfull as (Ht & Hb0). inversion Hb0; subst.
-          rewrite (sum_len_full _ Ht). lia. }
-      lia.
+      destruct Hlinv' as (G & L2 & _ & _ & Hp2 & _ & Hc2 & Hm2 & Ha2).
+      unfold post. split; [exact G|]. split; [exact F3|]. rewrite F3 in Ha2. split; [exact Ha2|].
+      assert (Hsize : size s2 = rtotal r) by lia.
+      split; [exact Hsize|]. split; [rewrite <- Hsize; exact Hc2|].
+      split; [rewrite F2, F3 in Hm2; lia|].
+      pose proof (ginv_allocated _ G). pose proof (size_le_allocated _ L2). lia.
     + (* RFail *)
-      split; [|discriminate]. unfold post. cbn [maxSize].
-      split; [exact Hg|]. split; [reflexivity|]. split; [exact Hal|]. apply Hfail. reflexivity.
+      split; [|discriminate]. unfold post. cbn [maxSize bump].
+      split; [exact Hb_g|]. split; [reflexivity|]. split; [exact Hal|]. apply Hfail. reflexivity.
+Qed.
+
+(* termination measure of the loop *)
+Definition mu (s : slurper) (r : reader) : nat :=
+  (2 * length (rscript r) + 2 * (N.to_nat (nslots s) - 1 - length (ext s)) +
+   (if (blen (cur s) =? bcap (cur s))%N then 0 else 1) + (if (rpos r <? rtotal r)%N then 1 else 0))%nat.
+
+Lemma has_err_incl sc sc' :
+  (forall x, In x sc' -> In x sc) -> has_err_ev sc' -> has_err_ev sc.
+Proof. intros H (k & Hk). exists k. auto. Qed.
+
+Lemma post_weaken s r s1 r1 o s' r' :
+  maxSize s1 = maxSize s -> rtotal r1 = rtotal r ->
+  (forall x, In x (rscript r1) -> In x (rscript r)) ->
+  post s1 r1 o s' r' -> post s r o s' r'.
+Proof.
+  intros Hm Ht Hi (P1 & P2 & P3 & P4). unfold post. rewrite <- Hm, <- Ht.
+  split; [exact P1|]. split; [exact P2|]. split; [exact P3|].
+  destruct o; auto. eapply has_err_incl; eauto.
+Qed.
+
+Lemma iter_spec s r :
+  linv s r ->
+  match iter s r with
+  | Cont s' r' => linv s' r' /\ maxSize s' = maxSize s /\ rtotal r' = rtotal r /\
+                  (forall x, In x (rscript r') -> In x (rscript r)) /\ (mu s' r' < mu s r)%nat
+  | Done o s' r' => post s r o s' r' /\ o <> ROutOfFuel
+  end.
+Proof.
+  intros Hl. pose proof Hl as (Hg & Hlen & Hfull & Hbr & Hpos & Hle & Hch & Hmx & Hal).
+  unfold iter.
+  destruct (N.eqb_spec (blen (cur s)) (bcap (cur s))) as [Hcf|Hcf].
+  - pose proof (size_full s Hfull Hcf) as Hsa.
+    pose proof (ginv_allocated s Hg) as Hga.
+    destruct (N.eqb_spec (remained s) 0) as [Hr0|Hr0].
+    + (* no memory left: probe for one more byte *)
+      destruct (rread r 1) as [[n e] r'] eqn:Hr.
+      destruct (rread_spec _ _ _ _ _ Hr Hle) as (HnL & Hp' & Hp'le & Ht' & Heof & Hfail & Hincl & Hsc).
+      destruct (N.ltb_spec 0 n) as [Hn|Hn].
+      * split; [|discriminate]. unfold post.
+        split; [exact Hg|]. split; [reflexivity|]. split; [exact Hal|]. right. lia.
+      * assert (n = 0) by lia. subst n.
+        destruct e.
+        -- (* zero-length read: retry *)
+           split.
+           { unfold linv. repeat (split; [assumption|]).
+             split; [lia|]. split; [lia|]. repeat (split; [assumption|]). assumption. }
+           split; [reflexivity|]. split; [exact Ht'|]. split; [exact Hincl|].
+           unfold mu. destruct Hsc as [Hsc|(E1 & E2 & _ & Hsc)].
+           ++ destruct (rpos r' <? rtotal r'), (rpos r <? rtotal r); lia.
+           ++ assert (H1 : 0 < 1) by lia. destruct (Hsc H1) as (Hc & _).
+              specialize (Hc eq_refl). discriminate.
+        -- split; [|discriminate]. specialize (Heof eq_refl). unfold post.
+           split; [exact Hg|]. split; [reflexivity|]. split; [exact Hal|].
+           assert (Hsz : size s = rtotal r) by lia.
+           split; [exact Hsz|]. split; [rewrite <- Hsz; exact Hch|]. split; lia.
+        -- split; [|discriminate]. unfold post.
+           split; [exact Hg|]. split; [reflexivity|]. split; [exact Hal|]. apply Hfail. reflexivity.
+    + (* allocate the next buffer *)
+      unfold allocate.
+      destruct Hg as (G1 & G2 & G3 & G4).
+      destruct G4 as [G4|G4]; [contradiction|].
+      pose proof (sum_cap_all_step _ G4) as Hsc.
+      destruct (N.leb_spec (nslots s) (N.of_nat (length (ext s)) + 1)) as [Hns|Hns].
+      { exfalso. unfold allocationStep in *. rewrite G3 in Hns. rewrite Hsc in G2. lia. }
+      set (sz := N.min allocationStep (remained s)).
+      set (s1 := mkS (remained s - sz) (bytesRead s) (maxSize s) (nslots s) (b0 s)
+                     (mkBuf sz 0 [] :: ext s)).
+      assert (Hsz : 0 < sz) by (unfold sz, allocationStep; lia).
+      assert (Hl1 : linv s1 r).
+      { unfold linv, ginv, s1. cbn [remained bytesRead maxSize nslots b0 ext sum_cap fold_right bcap].
+        fold (sum_cap (ext s)).
+        split.
+        { split; [exact G1|]. split; [unfold sz; lia|]. split; [exact G3|].
+          destruct (N.eq_dec (remained s - sz) 0) as [E|E]; [left; exact E|right].
+          constructor; [cbn [bcap]; unfold sz in *; lia|exact G4]. }
+        split.
+        { inversion Hlen; subst. constructor; [assumption|]. constructor; [cbn [blen bcap]; lia|assumption]. }
+        split.
+        { cbn [app tl].
+          unfold cur in Hcf. destruct (ext s) as [|c t] eqn:Ee; cbn [app tl] in *.
+          - constructor; [exact Hcf|constructor].
+          - constructor; [exact Hcf|exact Hfull]. }
+        unfold size, allocated, segments. cbn [b0 ext sum_len sum_cap fold_right blen bcap rev].
+        fold (sum_len (ext s)) (sum_cap (ext s)).
+        rewrite flat_map_app. cbn [flat_map bsegs rev app]. rewrite app_nil_r.
+        fold (size s) (allocated s) (segments s).
+        split; [unfold size in Hbr; lia|]. split; [unfold size in Hpos; lia|]. split; [exact Hle|].
+        split. { replace (blen (b0 s) + (0 + sum_len (ext s))) with (size s) by (unfold size; lia). exact Hch. }
+        split; [exact Hmx|].
+        intros Hm. unfold allocated in *. unfold sz, allocationStep in *. lia. }
+      assert (Hfree : blen (cur s1) < bcap (cur s1)) by (unfold s1, cur; cbn [ext blen bcap]; lia).
+      pose proof (read_into_spec s1 r Hl1 Hfree) as Hri.
+      destruct (read_into s1 r) as [o s' r'|s' r'].
+      * destruct Hri as (Hp & Ho). split; [|exact Ho].
+        eapply post_weaken; [| | |exact Hp]; auto.
+      * destruct Hri as (L' & M' & T' & N' & E' & P' & I' & S').
+        split; [exact L'|]. split; [exact M'|]. split; [exact T'|]. split; [exact I'|].
+        unfold mu. rewrite N', E'. cbn [s1 nslots ext length].
+        assert (F0 : (blen (cur s) =? bcap (cur s)) = true) by (apply N.eqb_eq; exact Hcf).
+        rewrite F0.
+        destruct S' as [S'|(E1 & E2 & S')].
+        -- destruct (blen (cur s') =? bcap (cur s')), (rpos r' <? rtotal r'), (rpos r <? rtotal r); lia.
+        -- rewrite E1, E2. cbn [length].
+           destruct (N.ltb_spec (rpos r') (rtotal r')), (N.ltb_spec (rpos r) (rtotal r));
+             destruct (blen (cur s') =? bcap (cur s')); lia.
+  - (* room in the current buffer *)
+    assert (Hlen' := Hlen).
+    assert (Hfree : blen (cur s) < bcap (cur s)).
+    { assert (blen (cur s) <= bcap (cur s)); [|lia].
+      unfold cur. inversion Hlen as [|? ? H1 H2]; subst. destruct (ext s); [assumption|].
+      inversion H2; assumption. }
+    pose proof (read_into_spec s r Hl Hfree) as Hri.
+    destruct (read_into s r) as [o s' r'|s' r']; [exact Hri|].
+    destruct Hri as (L' & M' & T' & N' & E' & P' & I' & S').
+    split; [exact L'|]. split; [exact M'|]. split; [exact T'|]. split; [exact I'|].
+    unfold mu. rewrite N', E'.
+    assert (F0 : (blen (cur s) =? bcap (cur s)) = false) by (apply N.eqb_neq; exact Hcf).
+    rewrite F0.
+    destruct S' as [S'|(E1 & E2 & [S'|S'])].
+    + destruct (blen (cur s') =? bcap (cur s')), (rpos r' <? rtotal r'), (rpos r <? rtotal r); lia.
+    + rewrite E1, E2. cbn [length]. apply N.eqb_eq in S'. rewrite S'.
+      destruct (N.ltb_spec (rpos r') (rtotal r')), (N.ltb_spec (rpos r) (rtotal r)); lia.
+    + rewrite E1, E2. cbn [length].
+      destruct (N.ltb_spec (rpos r') (rtotal r')), (N.ltb_spec (rpos r) (rtotal r));
+        destruct (blen (cur s') =? bcap (cur s')); lia.
+Qed.
+
+Lemma run_spec fuel : forall s r,
+  linv s r ->
+  match run fuel s r with
+  | (o, s', r') => post s r o s' r' /\ ((mu s r < fuel)%nat -> o <> ROutOfFuel)
+  end.
+Proof.
+  induction fuel as [|f IH]; intros s r Hl; cbn [run].
+  - split; [|lia]. unfold post. destruct Hl as (Hg & _ & _ & _ & _ & _ & _ & _ & Hal).
+    split; [exact Hg|]. split; [reflexivity|]. split; [exact Hal|]. exact I.
+  - pose proof (iter_spec s r Hl) as Hi. destruct (iter s r) as [o s' r'|s' r'].
+    + destruct Hi as (Hp & Ho). split; [exact Hp|]. intros _. exact Ho.
+    + destruct Hi as (L' & M' & T' & I' & Mu).
+      specialize (IH s' r' L'). destruct (run f s' r') as [[o s''] r''].
+      destruct IH as (Hp & Hf). split.
+      * eapply post_weaken; eauto.
+      * intros Hlt. apply Hf. lia.
+Qed.
+
+(* one message: Reset(limit); Read *)
+Lemma slurp_spec s limit total sc :
+  ginv s ->
+  match slurp s limit total sc with
+  | (o, s', r') => post (reset s limit) (mkR 0 total sc) o s' r' /\ o <> ROutOfFuel
+  end.
+Proof.
+  intros Hg. unfold slurp.
+  pose proof (run_spec (fuel_for (reset s limit) (mkR 0 total sc)) _ _ (reset_linv s limit total sc Hg)) as H.
+  destruct (run _ _ _) as [[o s'] r']. destruct H as (Hp & Hf). split; [exact Hp|].
+  apply Hf. unfold mu, fuel_for. cbn [rscript reset nslots ext length].
+  destruct (_ =? _), (_ <? _); lia.
 Qed.
 End Geometry.
